@@ -19,7 +19,10 @@ RULE = ("finite and enumerated completely: every public entry point of HexaryTri
         "distinct entry point / position / kind / history)")
 
 BAD_KINDS = [("None", lambda: None), ("str", lambda: "ab"), ("int", lambda: 7), ("bytearray", lambda: bytearray(b"ab")),
-             ("memoryview", lambda: memoryview(b"ab")), ("list", lambda: [1, 2]), ("tuple", lambda: (1, 2))]
+             ("memoryview", lambda: memoryview(b"ab")), ("list", lambda: [1, 2]), ("tuple", lambda: (1, 2)),
+             # falsy / empty look-alikes of b"" (an empty bytearray even compares equal to b"")
+             ("empty_bytearray", lambda: bytearray()), ("empty_str", lambda: ""), ("zero", lambda: 0), ("false", lambda: False),
+             ("empty_list", lambda: []), ("empty_tuple", lambda: ()), ("empty_memoryview", lambda: memoryview(b""))]
 BAD_NIBS = [("nibble16", (1, 16), 14), ("nibble_neg", (-1,), 14), ("nibble_str", ("a",), 14), ("notseq_int", 5, 13), ("notseq_str", "ab", 13),
             ("notseq_none", None, 13)]
 
@@ -343,7 +346,7 @@ def check(tier, seed):
         ops, outs, bad = run_hexary(prune, prior, rng)
         R.evaluations += len(ops) // 2
         for j in range(0, len(ops), 2):
-            R.nontrivial.add(C.case_key(["hexary", i, ops[j]]))
+            R.nontrivial.add(C.case_key(["hexary", i, j, ops[j]]))
         if bad:
             R.spec_violations.append((bad, {"component": "HexaryTrie", "prune": prune, "prior": prior}))
         hterms.append(f"(({cbool(prune)}, {HX.cops(prior)}, {clist([chapi(o) for o in ops])}), {cobs(outs)})")
@@ -353,7 +356,7 @@ def check(tier, seed):
         ops, outs, bad = run_binary(bprior)
         R.evaluations += len(ops) // 2
         for j in range(0, len(ops), 2):
-            R.nontrivial.add(C.case_key(["binary", i, ops[j]]))
+            R.nontrivial.add(C.case_key(["binary", i, j, ops[j]]))
         if bad:
             R.spec_violations.append((bad, {"component": "BinaryTrie", "prior": bprior}))
         bterms.append(f"(({clist([BX.cop(o) for o in bprior])}, {clist([cbapi(o) for o in ops])}), {cobs(outs)})")
@@ -362,7 +365,7 @@ def check(tier, seed):
         ops, outs, bad = run_smt(ks, sprior)
         R.evaluations += len(ops) // 2
         for j in range(0, len(ops), 2):
-            R.nontrivial.add(C.case_key(["smt", i, ops[j]]))
+            R.nontrivial.add(C.case_key(["smt", i, j, ops[j]]))
         if bad:
             R.spec_violations.append((bad, {"component": "SparseMerkleTree", "key_size": ks, "prior": sprior}))
         sterms.append(f"(({cnat(ks)}, {clist([c14.cop(o) for o in sprior])}, {clist([csapi(o) for o in ops])}), {cobs(outs)})")
